@@ -600,6 +600,6 @@ def run(tier, seed):
 MANIFEST = {
     "engine": "E",
     "technique": "exhaustive closed catalogues (all spellings x case x blanks, malformed lists, single-character mutations, every Unicode code point in every slot) against an ASCII reference grammar taken from the documentation; documentation examples through the real client configuration path",
-    "text": "parse_duration, parse_date and parse_abbreviated_size are run on every string of the catalogues and compared with a three-zone reference (documented: must return the documented value; lenient: either; malformed: must raise, any exception type). abbreviate_space output is fed back to the size parser. The documentation's own example values are put in a tahoe.cfg and pushed through _Client.get_anonymous_storage_server to a real StorageServer.",
+    "text": "parse_duration, parse_date and parse_abbreviated_size are run on every string of the catalogues and compared with a three-zone reference (documented: must return the documented value; lenient: either; malformed: must raise, any exception type). abbreviate_space output is fed back to the size parser. The documentation's own example values are put in a tahoe.cfg and pushed through _Client.get_anonymous_storage_server to a real StorageServer. The date catalogue is parsed again with the process in five other time zones.",
     "note": "Exception types of rejections are recorded in evidence only. Printed sizes with decimals may be rejected (counted); '<n> B' is a documented spelling and must parse. Month=31 d, year=365 d from the project's tests.",
 }
